@@ -696,6 +696,21 @@ class ConstraintsIntersection(AbstractConstraintSet):
         for constraint in self._values:
             constraint(value, idx)
 
+    # Constraints derivation: adding a constraint to an intersection
+    # narrows it down, so the sum is a subtype of the original.
+
+    def _derive(self, derived):
+        if self:
+            derived._valueMap.add(self)
+            derived._valueMap.update(self._valueMap)
+        return derived
+
+    def __add__(self, value):
+        return self._derive(AbstractConstraintSet.__add__(self, value))
+
+    def __radd__(self, value):
+        return self._derive(AbstractConstraintSet.__radd__(self, value))
+
 
 class ConstraintsUnion(AbstractConstraintSet):
     """Create a ConstraintsUnion logic operator object.
